@@ -1,7 +1,60 @@
-"""C12 -- low-order coefficients do not depend on the truncation degree (see structural.py)."""
+"""C12 -- low-order coefficients do not depend on the truncation degree (see structural.py).
+Extra section: comparison operators (the control-flow predicates of user programs) must give the same truth value on x and on x
+truncated to any D' < D coefficients -- a branch `if x == c:` / `if x > y:` may depend on zeroth coefficients only, otherwise
+coefficient 0 of the result of the program depends on higher-order input coefficients."""
+import numpy
 import structural
 PID = 'C12'
+
+CMP = {'lt': lambda a, b: a < b, 'le': lambda a, b: a <= b, 'gt': lambda a, b: a > b, 'ge': lambda a, b: a >= b,
+       'eq': lambda a, b: a == b, 'ne': lambda a, b: a != b}
+
+
+def comparisons(rep, algopy, rng, tier):
+    UTPM = algopy.UTPM
+    n = 150 if tier == 'quick' else 2500
+    for _ in range(n):
+        D = rng.randint(2, 4); P = rng.randint(1, 2)
+        shp = rng.choice([(), (2,), (2, 2)])
+        nel = int(numpy.prod(shp, dtype=int))
+        xd = numpy.array([rng.randint(-3, 3) for _ in range(D * P * nel)], dtype=float).reshape((D, P) + shp)
+        mode = rng.choice(['utpm', 'scalar', 'ndarray'])
+        tie = rng.random() < 0.6          # zeroth coefficients equal to the other operand, higher ones not
+        if mode == 'utpm':
+            yd = numpy.array([rng.randint(-3, 3) for _ in range(D * P * nel)], dtype=float).reshape((D, P) + shp)
+            if tie:
+                yd[0] = xd[0]
+            mk = lambda k: UTPM(yd[:k].copy())
+        elif mode == 'scalar':
+            c = float(rng.randint(-2, 2))
+            if tie:
+                xd[0] = c
+            mk = lambda k: c
+        else:
+            c = numpy.array([rng.randint(-2, 2) for _ in range(nel)], dtype=float).reshape(shp)
+            if tie:
+                xd[0] = c
+            mk = lambda k: c.copy()
+        for name, f in CMP.items():
+            try:
+                full = f(UTPM(xd.copy()), mk(D))
+            except Exception:
+                continue          # an operator that is not defined for this operand kind is outside the quantifier (C10 decides)
+            for k in range(1, D):
+                rep.count('comparison', name); rep.count('comparison:other', mode)
+                rep.case(('cmp', name, mode, xd.tobytes().hex(), k, tie), True, sample=dict(check='comparison under truncation', op=name, other=mode, D=D, P=P, keep=k, tie=tie))
+                try:
+                    sub = f(UTPM(xd[:k].copy()), mk(k))
+                except Exception as e:
+                    rep.violation('trunc:cmp:%s:exception' % name, 'x %s <%s> raises %r on the truncated operand' % (name, mode, e), dict(kind='cmp', op=name, other=mode, x=xd.tolist(), keep=k))
+                    continue
+                if numpy.ndim(full) != numpy.ndim(sub) or not numpy.array_equal(numpy.asarray(full), numpy.asarray(sub)):
+                    rep.violation('trunc:cmp:%s:%s' % (name, mode), 'x %s <%s> is %r with D=%d coefficients but %r with the first %d: the predicate looks at higher-order coefficients'
+                                  % (name, mode, full, D, sub, k), dict(kind='cmp', op=name, other=mode, x=xd.tolist(), keep=k))
+                    break
+
+
 def main(tier, seed):
-    return structural.run(PID, 'trunc', tier, seed)
+    return structural.run(PID, 'trunc', tier, seed, extra=comparisons)
 def replay(path):
     return structural.replay(PID, 'trunc', path)
